@@ -471,6 +471,19 @@ func perSampleGraphs(e *emitter) []perSample {
 			{Op: "Flatten", Attrs: []Attr{{Name: "axis", Type: "i", I: -2}}, Ins: []string{"x5"}, Outs: []string{"fl"}},
 		}, Outputs: []string{"rm", "rn", "r2", "am", "am2", "rm5", "rn5", "am5", "ga", "cc", "sl", "sm"}},
 		[]BatchIn{{"x", []int{0, 2, 3}, 0}}})
+	// TWO batched inputs combined element-wise, one of them with an extent of 1 BETWEEN the batch axis and another
+	// non-unit axis ((N,1,C) against (N,T,C), (N,1,H,W) against (N,C,H,W), and a per-sample context (N,1,1) against
+	// (N,T,C)): the stretched axis lies inside the sample, each sample is combined with its OWN context row
+	out = append(out, perSample{"context-broadcast-inside-sample", &GraphJ{
+		Inputs: []VInfoJ{{Name: "x", Dt: "f32", Dims: []any{"N", 2, 4}}, {Name: "z", Dt: "f32", Dims: []any{"N", 1, 4}}, {Name: "q", Dt: "f32", Dims: []any{"N", 1, 1}},
+			{Name: "im", Dt: "f32", Dims: []any{"N", 2, 2, 3}}, {Name: "m", Dt: "f32", Dims: []any{"N", 1, 2, 3}}},
+		Nodes: []NodeJ{
+			{Op: "Add", Ins: []string{"x", "z"}, Outs: []string{"a"}}, {Op: "Mul", Ins: []string{"z", "x"}, Outs: []string{"b"}},
+			{Op: "Sub", Ins: []string{"x", "q"}, Outs: []string{"c"}}, {Op: "Mul", Ins: []string{"im", "m"}, Outs: []string{"d"}},
+			{Op: "Add", Ins: []string{"m", "im"}, Outs: []string{"f"}}, {Op: "Greater", Ins: []string{"x", "z"}, Outs: []string{"gt"}},
+			{Op: "PRelu", Ins: []string{"x", "z"}, Outs: []string{"pr"}},
+		}, Outputs: []string{"a", "b", "c", "d", "f", "pr"}},
+		[]BatchIn{{"x", []int{0, 2, 4}, 0}, {"z", []int{0, 1, 4}, 0}, {"q", []int{0, 1, 1}, 0}, {"im", []int{0, 2, 2, 3}, 0}, {"m", []int{0, 1, 2, 3}, 0}}})
 	// recurrent operators: batch is axis 1 of X and of the states
 	for _, op := range []string{"RNN", "GRU", "LSTM", "GRU-lbr", "LSTM-peep"} {
 		G := map[string]int{"LSTM": 4, "GRU": 3, "RNN": 1, "GRU-lbr": 3, "LSTM-peep": 4}[op]
